@@ -482,7 +482,27 @@ def run_impl(case):
                 if dict(x.attr) != want:
                     obs["coverage"].append([i, "attr", dict(x.attr)])
         ties = has_ties(case)
+        # other FileSet objects are alive in the same process: same placeholder names, other regexes, other directories --
+        # created before the first query and between the queries; the answers of `fs` must not depend on them
+        decoys = []
+
+        def decoy():
+            names = sorted({t[1] for ch in case.get("chunks", []) for t in ch if t[0] == "u"}
+                           | {t[1] for t in case.get("file_tokens", []) if t[0] == "u"}) or ["sat", "ch"]
+            d = FileSet(str(root / "decoy" / ("_".join("{" + n + "}" for n in names) + "_{year}{month}{day}.txt")).replace(os.sep, "/"),
+                        name=f"decoy{len(decoys)}")
+            d.set_placeholders(**{n: (r"zz\d{2}" if len(decoys) % 2 == 0 else ["qx", "qy"]) for n in names})
+            decoys.append(d)
+        try:
+            decoy()
+        except Exception:  # noqa
+            pass
         for q in case["queries"]:
+            if len(decoys) == 1:
+                try:
+                    decoy()
+                except Exception:  # noqa
+                    pass
             stream = None
             if ties and wants_stream(q):
                 # the order in which the walk produces the files of this very query (sort=False, no bundles)
